@@ -314,6 +314,51 @@ def case_id(key):
     return "/".join(f"{k}={key[k]}" for k in sorted(key))
 
 
+# ---------------------------------------------------------------------------------------------
+# probes around the step-size controller (looked up through the module at call time by base_solver)
+# ---------------------------------------------------------------------------------------------
+class CtlProbe:
+    def __init__(self):
+        from torchsde._core import adaptive_stepping
+        self.mod = adaptive_stepping
+        self.orig = (adaptive_stepping.compute_error, adaptive_stepping.update_step_size)
+        self.estimates = []
+        self.steps = []                # step sizes proposed by update_step_size
+        self.breaches = []
+        self.calls = 0
+
+    def __enter__(self):
+        probe = self
+
+        def compute_error(y11, y12, rtol, atol, *a, **k):
+            probe.calls += 1
+            ts_ = [t for t in ((y11,) if torch.is_tensor(y11) else tuple(y11)) + ((y12,) if torch.is_tensor(y12) else tuple(y12))]
+            if torch.is_grad_enabled() and any(t.requires_grad for t in ts_):
+                probe.breaches.append("compute_error ran with autograd enabled on tensors requiring grad")
+            out = probe.orig[0](y11, y12, rtol, atol, *a, **k)
+            if torch.is_tensor(out) and out.requires_grad:
+                probe.breaches.append("compute_error returned a tensor requiring grad")
+            probe.estimates.append(float(out))
+            return out
+
+        def update_step_size(*a, **k):
+            vals = list(a) + list(k.values())
+            if any(torch.is_tensor(v) and v.requires_grad and torch.is_grad_enabled() for v in vals):
+                probe.breaches.append("update_step_size ran with autograd enabled on tensors requiring grad")
+            out = probe.orig[1](*a, **k)
+            probe.steps.append(float(out[0]))
+            if any(torch.is_tensor(v) and v.requires_grad for v in out if v is not None):
+                probe.breaches.append("update_step_size returned a tensor requiring grad")
+            return out
+
+        self.mod.compute_error, self.mod.update_step_size = compute_error, update_step_size
+        return self
+
+    def __exit__(self, *exc):
+        self.mod.compute_error, self.mod.update_step_size = self.orig
+        return False
+
+
 def replay_file(path, logqp=False):
     """`python -m checks.check --property Cnn --replay file`: print the stored failure and, when the replay holds a
     polynomial TLC case, run the real solver on it again."""
